@@ -232,6 +232,34 @@ mutant('C16', 'timeout-swallowed', 'frappy/lib/asynconn.py',
 mutant('C16', 'readbytes-returns-short', 'frappy/lib/asynconn.py',
        "        while len(self._rxbuffer) < nbytes:\n            data = self.recv()",
        "        while len(self._rxbuffer) < 1:\n            data = self.recv()")
+# ---------------------------------------------------------------- C17
+mutant('C17', 'write-in-place', 'frappy/persistent.py',
+       "            tmpfile = self.persistentFile.parent / (self.persistentFile.name + '.tmp')",
+       "            tmpfile = self.persistentFile")
+mutant('C17', 'snapshot-remembered-before-write', 'frappy/persistent.py',
+       "        if data != self.persistentData:\n            persistentdir",
+       "        if data != self.persistentData:\n            self.persistentData = data\n            persistentdir")
+mutant('C17', 'rename-inside-with', 'frappy/persistent.py',
+       "                    f.write('\\n')\n                os.rename(tmpfile, self.persistentFile)",
+       "                    os.rename(tmpfile, self.persistentFile)\n                    f.write('\\n')")
+mutant('C17', 'target-removed-on-error', 'frappy/persistent.py',
+       "            finally:\n                try:\n                    os.remove(tmpfile)",
+       "            except OSError:\n                os.remove(self.persistentFile)\n                raise\n            finally:\n                try:\n                    os.remove(tmpfile)")
+mutant('C17', 'load-catches-only-missing', 'frappy/persistent.py',
+       "        except (OSError, ValueError):\n            # missing, unreadable or corrupt file",
+       "        except FileNotFoundError:\n            # missing, unreadable or corrupt file")
+mutant('C17', 'cfg-does-not-override', 'frappy/persistent.py',
+       "                if not pobj.given:\n                    if pname in loaded:",
+       "                if True:\n                    if pname in loaded:")
+mutant('C17', 'one-bad-entry-drops-all', 'frappy/persistent.py',
+       "            except Exception as e:\n                # ignore invalid persistent data (in case parameters have changed)\n                self.log.warning('can not restore %r to %r (%r)', pname, value, e)",
+       "            except Exception as e:\n                # ignore invalid persistent data (in case parameters have changed)\n                return {}")
+mutant('C17', 'blob-export-not-json', 'frappy/persistent.py',
+       "        data = {k: v.export_value() for k, v in self.parameters.items()",
+       "        data = {k: (v.value if isinstance(v.value, (int, float, str)) else v.export_value()) for k, v in self.parameters.items()")
+mutant('C17', 'scaled-stored-as-float', 'frappy/datatypes.py',
+       "        return int(round(value / self.scale))\n\n    def import_value(self, value):",
+       "        return value\n\n    def import_value(self, value):")
 
 
 def run_mutant(prop, name, file, old, new, runs, extra):
